@@ -131,6 +131,7 @@ func c19Batch(j *orch.Job, r *orch.Result) error {
 				nd.Stop()
 				continue
 			}
+			legacyFrom := cur
 			nd, err := harness.StartNode(harness.NodeConfig{DBPath: dbp, DisableFork: legacy}, w.Chain)
 			r.Count("starts", 1)
 			refused := false
@@ -197,7 +198,8 @@ func c19Batch(j *orch.Job, r *orch.Result) error {
 				if err != nil {
 					return err
 				}
-				if _, err := db.Exec("DELETE FROM pn_sync_version"); err != nil {
+				// (only of the heights THIS session synced: rows written by tracking builds before it stay)
+				if _, err := db.Exec("DELETE FROM pn_sync_version WHERE height > ?", legacyFrom); err != nil {
 					db.Close()
 					return err
 				}
@@ -235,7 +237,7 @@ func checkC19(c *Ctx) *orch.Outcome {
 	o.Rule = "one evaluation = one daemon start (real NewPegnetd) on a database produced by a history of sessions (build sync-version ∈ {legacy,1,2,3}, blocks ∈ {0,1,2,5}, committed by the real DBlockSync) against a fork table; accept/refuse is compared with the statement evaluated on the ground truth of which build synced which height. " +
 		"Distinct non-trivial = distinct (expected verdict, session index, legacy prefix, number of forks) shapes; both verdicts must occur."
 	o.Assumptions = []string{
-		"a build predating version tracking is emulated by syncing and then deleting the pn_sync_version rows of that session; legacy sessions occur only as a prefix of a history",
+		"a build predating version tracking is emulated by syncing and then deleting the pn_sync_version rows of the heights that session synced; such sessions occur at any position of a history",
 		"fork heights are placed inside or right above the synced range (never below the database's genesis height)",
 		"empty blocks (which build committed a height does not depend on its content)",
 	}
@@ -254,9 +256,7 @@ func checkC19(c *Ctx) *orch.Outcome {
 			return
 		}
 		for _, v := range versions {
-			if v < 0 && len(prefix) > 0 && prefix[len(prefix)-1].Version >= 0 {
-				continue // legacy only as a prefix
-			}
+			// (a build predating version tracking may run at any point of a history: an operator going back to a very old binary)
 			for _, b := range blocks {
 				gen(append(prefix, c19Session{Version: v, Blocks: b}), depth+1)
 			}
@@ -394,7 +394,7 @@ func checkC19(c *Ctx) *orch.Outcome {
 	o.Extra["overridden_sessions"] = orch.SumCounter(rs, "override_sessions")
 	if c.Thorough() {
 		o.Exhaustive = true
-		o.Extra["exhaustive_within"] = "all histories of ≤3 sessions × versions {legacy(prefix only),1,2,3} × blocks {0,1,2,5} × one fork at every height within ±1 of a session boundary × minimum version {1,2,3} × final start version {1,2,3}"
+		o.Extra["exhaustive_within"] = "all histories of ≤3 sessions × versions {legacy,1,2,3} × blocks {0,1,2,5} × one fork at every height within ±1 of a session boundary × minimum version {1,2,3} × final start version {1,2,3}"
 	}
 	if orch.SumCounter(rs, "expected_refusals") == 0 || orch.SumCounter(rs, "expected_accepts") == 0 {
 		o.Inconclusive = append(o.Inconclusive, "one of the two verdicts never occurred")
